@@ -3,7 +3,7 @@ From Coq Require Import Reals List String Bool.
 From V.base Require Import Num.
 From V.gen Require Import Distributions.
 From V.model Require Import DistHand Conditional.
-From V.proofs Require Import DistProofs DistDocProofs CondProofs.
+From V.proofs Require Import DistProofs DistFitProofs DistDocProofs CondProofs.
 Import ListNotations.
 Local Open Scope R_scope.
 Local Open Scope string_scope.
